@@ -65,6 +65,8 @@ theorem conds_bridge :
       [c!"if msg < byte(len(s.conds)) { s.conds[msg].L.Lock() defer s.conds[msg].L.Unlock() s.conds[msg].Wait() }",
        c!"return nil"] := by decide
 
+theorem waitCode_bridge : Gen.Wire.AgentMessageWait = Cond.waitCode.toNat := by decide
+
 /-- with the regenerated table size, every code passing the guard indexes inside the table
     (all 256 codes) -/
 theorem conds_in_range : ∀ c : UInt8, Cond.inRange Gen.Wire.condsLen c = true → c.toNat < Gen.Wire.condsLen := by
